@@ -20,9 +20,10 @@ type FnSig struct {
 
 // Prelude is the concatenation of /verif/spec/*.smt2 with its parsed signatures.
 type Prelude struct {
-	Text  string
-	Sigs  map[string]*FnSig
-	forms []preludeForm
+	Text     string
+	Sigs     map[string]*FnSig
+	forms    []preludeForm
+	declared map[string]bool // symbols introduced by declare-fun (uninterpreted: axioms may speak about them)
 }
 
 // preludeForm is one top-level command of the spec files with the symbols it introduces and mentions.
@@ -58,6 +59,21 @@ func (p *Prelude) Slice(text string) string {
 		changed = false
 		for i, f := range p.forms {
 			if inc[i] {
+				continue
+			}
+			if f.names == nil && strings.HasPrefix(f.text, "(assert") {
+				// an axiom about declared spec functions: included as soon as one of the symbols it mentions is needed
+				// and declared by an included form
+				for a := range f.atoms {
+					if need[a] && p.declared[a] {
+						inc[i] = true
+						changed = true
+						for b := range f.atoms {
+							need[b] = true
+						}
+						break
+					}
+				}
 				continue
 			}
 			for _, n := range f.names {
@@ -117,6 +133,12 @@ func LoadPrelude(dir string) (*Prelude, error) {
 			switch s.list[0].atom {
 			case "define-fun", "define-fun-rec", "declare-fun", "declare-const", "declare-sort":
 				f.names = []string{s.list[1].atom}
+				if s.list[0].atom == "declare-fun" {
+					if p.declared == nil {
+						p.declared = map[string]bool{}
+					}
+					p.declared[s.list[1].atom] = true
+				}
 			case "declare-datatypes":
 				// introduces the sort names, constructors and accessors; depends on the field sorts
 				deps := map[string]bool{}
